@@ -23,9 +23,10 @@ EXPLICIT_IDS = [1, 2, 3, 4, 6, 'a', ('t', 1), -1, 0, True, 2.0, '', 9]
 NEVER_USED = ['never-used', 10 ** 9]
 PROCESS_BUDGET = 200000
 REACTIONS = True      # generate callbacks that issue World operations re-entrantly (see Run.react_general)
-# operand digit -> arm code: 6/16 no reaction, 7/16 one of the seven actions at the first lifecycle callback,
-# 3/16 a reaction reserved for on_remove (8: deferred delete of the own entity, 11: immediate delete of another)
-ARM_TABLE = [0, 0, 0, 0, 15, 15, 8, 8, 1, 2, 3, 4, 5, 6, 7, 11]     # 15: batch reaction during a release
+# operand digit -> arm code: 5/16 no reaction, 7/16 one of the seven actions at the first lifecycle callback,
+# 4/16 a reaction reserved for on_remove (8: deferred delete of the own entity, 11: immediate delete of another,
+# 14: disabling dispatching)
+ARM_TABLE = [0, 0, 0, 14, 15, 15, 8, 8, 1, 2, 3, 4, 5, 6, 7, 11]     # 15: batch reaction during a release
 
 
 class Sentinel(desper.Processor):
